@@ -221,6 +221,40 @@ def run(ck, w):
                 ck.fail(o, rb.name, m_.split(" (")[0], m_)
         else:
             ck.ok(o, "%d Kind switch(es)" % len(unk_edges), instances=len(unk_edges))
+    o = ck.ob("C10.3l", "restore(): no file or symlink entry is skipped silently - from the arm for its kind every path to the next entry (or to "
+                        "the return) attempts restore_file / restore_symlink or reports an error (directories: C01.2b/c, unknown kinds: C10.3k)")
+    kadt2 = lib.adts.get("kind::Kind")
+    vidx_ = {v["name"]: i for i, v in enumerate(kadt2["variants"])} if kadt2 else {}
+    arm_edges = {"File": set(), "Symlink": set()}
+    for bb_ in sorted(rb.live):
+        t_ = rb.blocks[bb_]["term"]
+        if t_["tk"] != "switch":
+            continue
+        dl_ = flow.operand_local(t_["discr"])
+        for st_ in reversed(rb.blocks[bb_]["stmts"]):
+            if st_["sk"] == "assign" and st_["pl"]["l"] == dl_ and st_["rv"]["rk"] == "discr" and "kind::Kind" in (rb.locals[st_["rv"]["pl"]["l"]] or ""):
+                arms_ = {int(a[0]): a[1] for a in t_["arms"]}
+                for vn_ in arm_edges:
+                    tg_ = arms_.get(vidx_.get(vn_), t_["otherwise"])
+                    if tg_ is not None:
+                        arm_edges[vn_].add((bb_, tg_))
+            break
+    if not nxt or not all(arm_edges.values()):
+        ck.fail(o, rb.name, "anchor-missing", "no switch on the entry's Kind with File / Symlink arms (or no Stitch::next loop) in restore()")
+    else:
+        silent = []
+        for vn_, fn_ in (("File", "restore::restore_file"), ("Symlink", "restore::restore_symlink")):
+            handled = {e.bb for e in errs} | {e.bb for e in events_of(lib, rb, fn_)} | {e.bb for e in rules.creators_of(rb, fn_)}
+            for (u_, v_) in sorted(arm_edges[vn_]):
+                reach = rb.reachable(v_, removed_nodes=handled)
+                if any(n.bb in reach for n in nxt) or any(r in reach for r in rb.return_blocks()):
+                    silent.append(vn_)
+        if silent:
+            for vn_ in sorted(set(silent)):
+                ck.fail(o, rb.name, "a %s entry can be skipped without a restore attempt or an error report" % vn_.lower(),
+                        "from the Kind::%s arm the next entry is reachable with neither the restore call nor Monitor::error on the way" % vn_)
+        else:
+            ck.ok(o, instances=2)
     o = ck.ob("C10.3c", "restore(): failures of restore_file / restore_symlink / restore_dir are reported and the loop continues")
     fates = {}
     for fn in ("restore::restore_file", "restore::restore_symlink", "restore::restore_dir"):
